@@ -494,3 +494,93 @@ def ob_no_mutation_while_iterating(ctx, num, key: str, label: str):
             ctx.ob(num, "K3", f"[{label}] a list is not changed inside the loop that walks it (a removal makes the loop skip the next element)", not bad, f, bad[0] if bad else lp,
                    construct=f"for .. in {t}", detail=f"mutations of `{t}` inside its own loop: {[norm.U(b)[:60] if not isinstance(b, ast.Delete) else stmt_text(b) for b in bad]}")
     return n
+
+
+def ob_arrivals_considered(ctx, num, key: str, label: str):
+    """Every pipeline handed to the policy is taken up in that round: the loop over the arriving pipelines either collects each of them
+    (`D[..] = p` in every iteration) into a local table whose values the intake loop then walks, nothing being removed from it — or puts a job
+    for each of them on a queue in every iteration.  A filter in that loop leaves ready operators waiting for ever beside idle pools."""
+    P = ctx.P
+    f = scheduler(P, key)
+    ctx.touch(f)
+    g = cfg_of(f, subst_env=False)
+    pip_p = f.params()[2]
+    s_p = f.params()[0]
+    loops = [lp for lp in own_nodes(f.node) if isinstance(lp, ast.For) and norm.is_name(lp.iter, pip_p) and isinstance(lp.target, ast.Name)]
+    ctx.count_min(f"loops over the arriving pipelines in the {label} scheduler", len(loops), 1)
+    good, why = [], []
+    for lp in loops:
+        pv = lp.target.id
+        hid = g.node_of(lp).id
+        inner = [n for b in lp.body for n in ast.walk(b)]
+        stores = [n for n in inner if isinstance(n, ast.Assign) and len(n.targets) == 1 and isinstance(n.targets[0], ast.Subscript)
+                  and isinstance(n.targets[0].value, ast.Name) and norm.is_name(n.value, pv)]
+        apps = [c for c in inner if isinstance(c, ast.Call) and isinstance(c.func, ast.Attribute) and c.func.attr == "append" and isinstance(c.func.value, ast.Attribute)
+                and norm.is_name(c.func.value.value, s_p) and c.args and isinstance(c.args[0], ast.Name)]
+        # an if/elif chain on the pipeline's priority that names every member of Priority has no way out at its end
+        dead = set()
+        try:
+            from .c16 import priority_members
+            members = set(priority_members(P))
+        except Exception:
+            members = set()
+        for top in inner:
+            if not isinstance(top, ast.If) or (isinstance(parent(top), ast.If) and top in parent(top).orelse and len(parent(top).orelse) == 1):
+                continue
+            seen_m, cur, last = set(), top, None
+            while isinstance(cur, ast.If):
+                t = cur.test
+                m_ = None
+                if isinstance(t, ast.Compare) and len(t.ops) == 1 and isinstance(t.ops[0], (ast.Eq, ast.Is)):
+                    for x, y in ((t.left, t.comparators[0]), (t.comparators[0], t.left)):
+                        if norm.U(x) == f"{pv}.priority" and isinstance(y, ast.Attribute) and norm.is_name(y.value, "Priority"):
+                            m_ = y.attr
+                if m_ is None:
+                    break
+                seen_m.add(m_)
+                last = cur
+                cur = cur.orelse[0] if len(cur.orelse) == 1 else None
+            if last is not None and not last.orelse and members and seen_m == members:
+                dead.add(g.node_of(last).id)
+
+        def every(nodes):
+            ids = {g.node_of(stmt_of(n) if isinstance(n, ast.Call) else n).id for n in nodes}
+
+            def edge_ok(a, b, lab):
+                if a == hid and lab == "done":
+                    return False
+                if a in dead and isinstance(lab, tuple) and lab[0] == "cond" and any(x[0] == "cmp" and x[1] in ("!=", "isnot") for x in norm.atoms_true(lab[1])):
+                    return False      # the false branch of the last test of an exhaustive chain
+                return True
+            return g.path_avoiding(hid, {hid, g.exit.id}, ids, edge_ok=edge_ok) is None
+        # reached whenever something arrived: a way round the loop exists only over a test that says nothing arrived
+        def nothing_arrived(lab):
+            return isinstance(lab, tuple) and lab[0] == "cond" and ("truth", pip_p, False) in norm.atoms_true(lab[1])
+        reached = g.path_avoiding(g.entry.id, {g.exit.id}, {hid}, edge_ok=lambda a, b, lab: not nothing_arrived(lab)) is None
+        if stores:
+            D = stores[0].targets[0].value.id
+            walks = [w for w in own_nodes(f.node) if isinstance(w, ast.For) and isinstance(w.iter, ast.Call) and isinstance(w.iter.func, ast.Attribute)
+                     and w.iter.func.attr in ("values", "items") and norm.is_name(w.iter.func.value, D)]
+            removed = [n for n in own_nodes(f.node) if (isinstance(n, ast.Delete) and any(isinstance(t, ast.Subscript) and norm.is_name(t.value, D) for t in n.targets))
+                       or (isinstance(n, ast.Call) and isinstance(n.func, ast.Attribute) and norm.is_name(n.func.value, D) and n.func.attr in ("pop", "clear", "popitem"))]
+            rebinds = [n for n in own_nodes(f.node) if isinstance(n, ast.Assign) and any(norm.is_name(t, D) for t in n.targets)]
+            after = [n for n in rebinds if g.node_of(n).id != hid and g.path_avoiding(hid, {g.node_of(n).id}, set()) is not None and not g.dominates(n, lp)]
+            walked = False
+            for w in walks:
+                # the walk is skipped only when the table is empty
+                wid = g.node_of(w).id
+                byp = g.path_avoiding(hid, {g.exit.id}, {wid}, edge_ok=lambda a, b, lab, D=D: not (a == hid and lab != "done") and not (
+                    isinstance(lab, tuple) and lab[0] == "cond" and ("truth", D, False) in norm.atoms_true(lab[1])))
+                walked = walked or byp is None
+            ok = every(stores) and walked and not removed and not after and reached
+            why.append(f"`{stmt_text(lp)}` collects into {D}: every arrival stored: {every(stores)}; table walked afterwards (skipped only when empty): {walked}; "
+                       f"nothing removed or re-bound: {not removed and not after}; reached whenever something arrived: {reached}")
+            if ok:
+                good.append(lp)
+        elif apps:
+            ok = every(apps) and reached
+            why.append(f"`{stmt_text(lp)}` queues a job per arrival: in every iteration: {every(apps)}; reached whenever something arrived: {reached}")
+            if ok:
+                good.append(lp)
+    ctx.ob(num, "K3", f"[{label}] every arriving pipeline is taken up in the round it arrives (none is filtered out before its ready operators are queued)", bool(good), f,
+           (good or loops)[0], construct="intake of arrivals", detail="; ".join(why) or "no loop over the arrivals stores or queues them")
